@@ -11,3 +11,4 @@ import CC.Thm.C07
 #print axioms CC.Groestl.spec_512_empty
 #print axioms CC.Thm.C07.source_kernels_match
 #print axioms CC.Thm.C07.source_literals_match
+#print axioms CC.Thm.C07.source_glue_match
